@@ -111,6 +111,10 @@ class NullRecorder:
         self.violations.append((key, what, detail))
 
 
+class AbortCase(Exception):
+    """The time line cannot usefully continue (e.g. an endless ping/pong exchange at one virtual instant)."""
+
+
 class Deadline:
     __slots__ = ("kind", "D", "armed", "grey", "origin", "overdue_reported")
 
@@ -262,6 +266,18 @@ class Sim:
             self.push(self.t_c + t_rel, kind, before)
         self.horizon0 = self.horizon = self.t_c + case["horizon"]
         # ---- main phase
+        try:
+            self.main_phase()
+        except AbortCase:
+            R.count("cases_aborted")
+        # ---- end of main phase: everything the case could create is past
+        self.finish()
+        self.post_close()
+        self.evidence()
+        return self
+
+    def main_phase(self):
+        W = self.W
         for _ in range(100000):
             # the horizon moves out (bounded) while an unjudged deadline is still ahead
             for dl in self.live.values():
@@ -307,11 +323,6 @@ class Sim:
             jump(W, self.horizon)
             W.settle()
             self.after_step("timer")
-        # ---- end of main phase: everything the case could create is past
-        self.finish()
-        self.post_close()
-        self.evidence()
-        return self
 
     def credit(self, k):
         """A peer that met deadline ``k`` with >= 1 s to spare was not dropped by that timer (deciding monitor)."""
@@ -522,6 +533,9 @@ class Sim:
         R = self.R
         self.pings.append((t, payload))
         R.count("pings_on_wire")
+        if len(self.pings) > 25 and t - self.pings[-25][0] < EPS:
+            self.viol("auto-ping-storm", "25 auto-pings written at one virtual instant (%s), autoPingInterval is %s" % (self.rel(t), self.I))
+            raise AbortCase()
         if self.ping_due is not None:
             refi, lo, hi = self.ping_due
             R.count("ping_intervals_measured")
